@@ -1,6 +1,6 @@
 (* C20/Properties.v — the property theorems of C20 (lock protocol of the shared pools). *)
-From Coq Require Import List Bool.
-From Morfuse Require Import C20.Model C20.Generated C20.Proofs.
+From Coq Require Import List Bool String.
+From Morfuse Require Import C20.Model C20.Audit C20.Generated C20.Proofs.
 Import ListNotations.
 
 (* For EVERY lock table that follows the protocol (writers exclusive, readers any lock),
@@ -35,3 +35,41 @@ Print Assumptions C20_per_thread_state_is_thread_local.
 Theorem C20_shared_mode_allows_conflict : exists progs sched, conflict (run old_modes progs sched).
 Proof. exact shared_mode_allows_conflict. Qed.
 Print Assumptions C20_shared_mode_allows_conflict.
+
+(* The audit of process-wide state, regenerated on every run from the library built from the
+   current tree: every object in a writable section is thread-local, a locked pool, written
+   only during initialisation / host configuration, or a value-less sink.  A new or changed
+   global that fits no rule (e.g. a static that loses thread_local) breaks this theorem. *)
+Theorem C20_every_process_wide_object_is_accounted_for :
+  all_accounted (map snd global_audit) = true.
+Proof. vm_compute. reflexivity. Qed.
+Print Assumptions C20_every_process_wide_object_is_accounted_for.
+
+(* the per-thread interpreter state is thread-local in the binary *)
+Theorem C20_interpreter_state_is_thread_local_in_the_binary :
+  forallb (fun n => existsb (fun p => andb (String.eqb (fst p) n)
+                                           (match snd p with ThreadLocal => true | _ => false end)) global_audit)
+          required_thread_local = true.
+Proof. vm_compute. reflexivity. Qed.
+Print Assumptions C20_interpreter_state_is_thread_local_in_the_binary.
+
+(* Under the usage rules of the kinds, whatever two engine threads do, the only accesses of
+   different threads that touch the same storage with a write among them are accesses to a
+   locked pool, both made inside its critical sections - and those are never simultaneous
+   (C20_current_pools_never_conflict). *)
+Theorem C20_engines_interfere_only_inside_locked_pools :
+  forall a b, a_global a < List.length (map snd global_audit) ->
+    allowed (kind_of (map snd global_audit) (a_global a)) a = true ->
+    allowed (kind_of (map snd global_audit) (a_global b)) b = true ->
+    interfere (map snd global_audit) a b ->
+    kind_of (map snd global_audit) (a_global a) = LockedPool /\
+    a_in_pool_section a = true /\ a_in_pool_section b = true.
+Proof. exact (interference_only_inside_locked_pools (map snd global_audit) C20_every_process_wide_object_is_accounted_for). Qed.
+Print Assumptions C20_engines_interfere_only_inside_locked_pools.
+
+Theorem C20_unaccounted_object_allows_interference :
+  exists a b, allowed (kind_of [Unaccounted] (a_global a)) a = true /\
+              allowed (kind_of [Unaccounted] (a_global b)) b = true /\
+              interfere [Unaccounted] a b /\ a_in_pool_section a = false.
+Proof. exact unaccounted_object_allows_interference. Qed.
+Print Assumptions C20_unaccounted_object_allows_interference.
